@@ -304,9 +304,10 @@ Section Search.
   Definition shift_swaps (sh : list nat) (s : swaps) : swaps :=
     map (fun p => ((fst p + nth (fst p) sh 0)%nat, (snd p + nth (snd p) sh 0)%nat)) s.
 
-  (** the measurements of the combination that exist, as positions *)
+  (** the measurements of the combination that exist, as positions
+      ([int(disabledMeasurementIdx) == idx] for some idx in range) *)
   Definition disabled_of (comb : list Z) : list nat :=
-    map Z.to_nat (filter (fun i => i <? Z.of_nat nlog) comb).
+    map Z.to_nat (filter (fun i => (0 <=? i) && (i <? Z.of_nat nlog)) comb).
 
   (** result of tryDisabledMeasurementsCombination *)
   Inductive tres : Type :=
